@@ -44,6 +44,8 @@ FAULTS = [
     "subgrid:negative-j1-below-j0", "subgrid:negative-i0-above-i1", "subgrid:j-beyond-grid", "subgrid:negative-beyond-grid",
     "forcing:starts-half-a-step-late", "forcing:ends-half-a-step-early", "forcing:duplicated-frame-in-one-file", "forcing:out-of-order-in-one-file",
     "time:start-equals-stop", "release:empty-file", "release:position-columns-misspelt",
+    "subgrid:i1-far-beyond", "subgrid:j1-far-beyond", "subgrid:i0-far-negative", "release:all-before-start+stray-frequency",
+    "forcing:ends-early+other-time-units-in-second-file", "forcing:starts-late+other-time-units-in-second-file",
 ]
 
 
@@ -98,7 +100,7 @@ def build(base, fault, d):
         times[NSTEPS] = t(NSTEPS) - sgn * DT // 2
     cal = sorted(slots, key=lambda s: times[s])
     fr = lambda s: dict(t=times[s], **W.uniform(0.2 + 0.01 * s, 0.05))  # noqa: E731
-    multi = base["multi"] or fault.startswith("forcing:out-of-order") or fault.startswith("forcing:duplicated")
+    multi = base["multi"] or fault.startswith("forcing:out-of-order") or fault.startswith("forcing:duplicated") or fault.endswith("other-time-units-in-second-file")
     if multi:
         h = len(cal) // 2
         groups = [cal[:h], cal[h:]]
@@ -112,12 +114,29 @@ def build(base, fault, d):
         groups[-1] = groups[-1][:1] + groups[-1]
     if fault == "forcing:out-of-order-in-one-file":
         groups[-1] = groups[-1][::-1]
+    units_fault = fault.endswith("other-time-units-in-second-file")
+    if units_fault:
+        # true coverage is short by two steps; decoded with the FIRST file's epoch the second file would look two steps later/earlier
+        if fault.startswith("forcing:ends-early"):
+            cal = cal[:-1]
+        else:
+            cal = cal[1:]
+        h = len(cal) // 2
+        groups = [cal[:h], cal[h:]]
     for gi, g in enumerate(groups):
-        W.write_file(d / f"f_{gi:02d}.nc", [fr(s) for s in g])
+        tu = "seconds since 1970-01-01 00:00:00"
+        if gi == 1:
+            tu = "seconds since 1969-12-31 23:40:00"  # legal: every file states its own epoch
+            if units_fault:
+                late_file = (fault.startswith("forcing:ends-early")) != base["rev"]
+                tu = "seconds since 1969-12-31 23:40:00" if late_file else "seconds since 1970-01-01 00:20:00"
+        if gi == 0 and units_fault and fault.startswith("forcing:starts-late") != base["rev"] and False:
+            pass
+        W.write_file(d / f"f_{gi:02d}.nc", [fr(s) for s in g], time_units=tu)
     W.write_file(d / "grid.nc", [fr(cal[0])])
     # release
     rows_slots = [0, 2, 3] if not base["cont"] else [0, 3]
-    if fault == "release:all-before-start":
+    if fault in ("release:all-before-start", "release:all-before-start+stray-frequency"):
         rows_slots = [-3, -1]
     elif fault == "release:all-after-stop":
         rows_slots = [NSTEPS + 1, NSTEPS + 3]
@@ -150,6 +169,8 @@ def build(base, fault, d):
     conf["release"] = dict(release_file=str(d / "r.rls"))
     if base["cont"]:
         conf["release"].update(continuous=True, release_frequency=2 * DT)
+    elif fault == "release:all-before-start+stray-frequency":
+        conf["release"]["release_frequency"] = 2 * DT  # left over in a discrete set-up
     conf["ibm"] = dict(module=rec)
     conf["output"] = dict(filename=str(d / "out.nc"), output_period=DT, instance_variables={v: world.ovar("i4" if v == "pid" else "f8") for v in ("pid", "X", "Y", "Z")})
     # ---- configuration-level faults
@@ -193,6 +214,12 @@ def build(base, fault, d):
         conf["grid"]["subgrid"] = [1, 9, 1, 8]
     elif fault == "subgrid:negative-beyond-grid":  # j0 = 8 - 9 = -1
         conf["grid"]["subgrid"] = [1, 9, -9, 7]
+    elif fault == "subgrid:i1-far-beyond":  # 17 = 7 modulo the grid size 10
+        conf["grid"]["subgrid"] = [1, 17, 1, 7]
+    elif fault == "subgrid:j1-far-beyond":  # 14 = 6 modulo 8
+        conf["grid"]["subgrid"] = [1, 9, 1, 14]
+    elif fault == "subgrid:i0-far-negative":  # -19 = 1 modulo 10
+        conf["grid"]["subgrid"] = [-19, 9, 1, 7]
     elif fault == "time:start-equals-stop":
         conf["time"]["stop"] = conf["time"]["start"]
     path = d / "ladim.yaml"
@@ -232,7 +259,7 @@ def run_subprocess(base):
     b = {k: base[k] for k in ("rev", "multi", "cont")}
     viols, n = [], 0
     for fault in ["none"] + list(base["faults"]):
-        if fault == "release:all-before-start" and b["cont"]:
+        if fault.startswith("release:all-before-start") and b["cont"]:
             continue
         d = util.scratch("c20s")
         path = build(b, fault, d)
@@ -283,7 +310,7 @@ def run_case(base):
     for fault in FAULTS[1:]:
         if only and only != fault:
             continue
-        if fault == "release:all-before-start" and b["cont"]:
+        if fault.startswith("release:all-before-start") and b["cont"]:
             continue  # not a fault: a continuous release keeps releasing the rows of the latest file time before start
         err, started, nrec = run_one(b, fault)
         n += 1
